@@ -787,7 +787,8 @@ FN('is_ended', props=['C07', 'C08', 'C09'], ret='r',
    ensures=[('C08.complete_iff', '''r == match *self { BodyReader::NoBody => true, BodyReader::LengthDelimited(v) => v == 0,
             BodyReader::Chunked(d) => d is Ended, BodyReader::CloseDelimited => false }''')])
 FN('is_on_chunk_boundary', props=['C07'], ret='r',
-   ensures=[('aux.BodyReader.is_on_chunk_boundary', 'r == (*self is Chunked && self->Chunked_0 is Size)')])
+   # (only the chunked case is pinned: C07 does not say what the query answers for bodies that have no chunks)
+   ensures=[('aux.BodyReader.is_on_chunk_boundary', '*self is Chunked ==> r == (self->Chunked_0 is Size)')])
 END()
 
 
